@@ -119,6 +119,17 @@ def _load(modname):
     return _MOD
 
 
+def _init_worker(modname, tier):
+    """Runs in the master and (again, only if the state was not inherited) in workers."""
+    mod = _load(modname)
+    if not getattr(mod, "_simverif_prepared", False):
+        if hasattr(mod, "prepare"):
+            mod.prepare()
+        mod._simverif_prepared = True
+    if hasattr(mod, "set_tier"):
+        mod.set_tier(tier)
+
+
 def run_one(mod, seed=None, prefix=None):
     """Execute one run; harness exceptions are classified apart from violations."""
     tape = Tape(seed=seed, prefix=prefix)
@@ -202,7 +213,11 @@ def minimise(mod, res, viol, budget):
             return False
         return True
 
-    vals, calls = shrink(res["tape"], still, budget=budget)
+    vals, calls = shrink(
+        res["tape"], still,
+        budget=min(budget, getattr(mod, "SHRINK_BUDGET", budget)),
+        seconds=getattr(mod, "SHRINK_SECONDS", 90),
+    )
     final = run_one(mod, prefix=vals)
     v = clause_of(final, clause)
     if v is None:  # shrinking must end on a failing list; fall back to original
@@ -333,10 +348,7 @@ def main(argv=None):
     if not (a.replay or a.digests):
         ensure_parser()
     mod = _load(modname)
-    if hasattr(mod, "prepare"):
-        mod.prepare()
-    if hasattr(mod, "set_tier"):
-        mod.set_tier(a.tier)
+    _init_worker(modname, a.tier)
 
     if a.replay:
         if a.reproduce_check:
@@ -381,7 +393,10 @@ def main(argv=None):
     viols = []  # (res, violation)
     harness_errors = []
 
-    ctx = multiprocessing.get_context("fork")
+    # "fork" by default (workers inherit the prepared interpreter); a check whose runs
+    # fork children themselves asks for "spawn", so that the workers do not share one
+    # copy-on-write lineage (fork-heavy siblings contend badly in the kernel)
+    ctx = multiprocessing.get_context(getattr(mod, "MP_CONTEXT", "fork"))
     # keep the (large) pre-fork heap out of the children's cyclic GC: avoids
     # copy-on-write faults over the whole heap in every worker
     import gc
@@ -392,7 +407,10 @@ def main(argv=None):
     end_idx = a.start + max_runs
     deadline = t0 + seconds
     try:
-        with cf.ProcessPoolExecutor(max_workers=a.workers, mp_context=ctx) as ex:
+        with cf.ProcessPoolExecutor(
+            max_workers=min(a.workers, getattr(mod, "MAX_WORKERS", a.workers)),
+            mp_context=ctx, initializer=_init_worker, initargs=(modname, a.tier),
+        ) as ex:
             pending = set()
 
             def submit():
